@@ -402,7 +402,7 @@ def edit_output(draw, o):
     return o
 
 
-CELL_EDITS = ["source", "source", "source", "outputs", "outputs", "metadata", "ec", "attach", "type", "rerun", "toggle"]
+CELL_EDITS = ["source", "source", "source", "outputs", "outputs", "metadata", "ec", "attach", "type", "rerun", "toggle", "clear_source"]
 
 
 @st.composite
@@ -413,6 +413,8 @@ def edit_cell(draw, c, minor, kinds=None, n_edits=None):
     for w in what:
         if w == "source":
             c["source"] = draw(edit_text(c["source"], pool))
+        elif w == "clear_source":
+            c["source"] = ""          # the user emptied the cell
         elif w == "metadata":
             _edit_cell_metadata(draw, c, minor)
         elif w == "rerun":
@@ -650,8 +652,8 @@ def _forced_conflict(draw, base):
         del l["cells"][i]
         del r["cells"][i]
     elif shape == "both_edit_source":
-        l["cells"][i] = draw(edit_cell(c, minor, ["source"]))
-        r["cells"][i] = draw(edit_cell(c, minor, ["source"]))
+        l["cells"][i] = draw(edit_cell(c, minor, draw(st.sampled_from([["source"], ["source"], ["source"], ["clear_source"]]))))
+        r["cells"][i] = draw(edit_cell(c, minor, draw(st.sampled_from([["source"], ["source"], ["source"], ["clear_source"]]))))
     elif shape == "both_edit_outputs":
         l["cells"][i] = draw(edit_cell(c, minor, ["outputs"]))
         r["cells"][i] = draw(edit_cell(c, minor, ["outputs"]))
